@@ -84,7 +84,7 @@ func RandRead(b []byte) (int, error) {
 // ---------------------------------------------------------------------------
 // stable identities for pointers used as map keys
 
-const regCap = 1 << 13
+const regCap = 1 << 15
 
 type regEntry struct {
 	p  unsafe.Pointer
@@ -92,16 +92,16 @@ type regEntry struct {
 }
 
 //go:norace
-func (s *Sim) regPut(p unsafe.Pointer, id taskID) {
+func (s *Sim) regPut(p unsafe.Pointer, id taskID) bool {
 	h := (uintptr(p) >> 4) & (regCap - 1)
 	for i := 0; i < regCap; i++ {
 		e := &s.reg[(h+uintptr(i))&(regCap-1)]
 		if e.p == nil || e.p == p {
 			e.p, e.id = p, id
-			return
+			return true
 		}
 	}
-	panic("dsim: registry full")
+	return false
 }
 
 //go:norace
@@ -137,9 +137,14 @@ func Register[T any](p *T) *T {
 	s := cur
 	raceDisable()
 	s.mu.Lock()
-	s.regPut(unsafe.Pointer(p), id)
+	ok := s.regPut(unsafe.Pointer(p), id)
 	s.mu.Unlock()
 	raceEnable()
+	if !ok {
+		// more live objects than the registry holds (an allocation storm): only objects that
+		// are later used as ordered map keys need an identity, and that use reports the gap
+		s.regOverflow = true
+	}
 	return p
 }
 
